@@ -10,6 +10,10 @@ def run(ck, ctx):
         "and ON DELETE / ON UPDATE actions including SET NULL. O-value: every declaration adds exactly its own entry "
         "(primary_key list, constraints[type] entry under its name with its exact column list, checks entry, per-column "
         "reference entries with referenced schema / table / column and actions as written), flags exactly the named column "
-        "for a single-column UNIQUE and no column for a multi-column one, and touches nothing else.")
-    run_fragment(ck, ctx, "table", label="constraints", tier=ck.tier, constraints=True, set_null=True)
+        "for a single-column UNIQUE and no column for a multi-column one, and touches nothing else. O-keys (output layer evaluated "
+        "abstractly on a spread of the distinct table shapes the fixed point produces): the reported primary_key is the declared key "
+        "(table-level clause, else inline flags then named constraints, in order), every key column is NOT NULL, unique flags are "
+        "exactly inline UNIQUE or a single-column UNIQUE clause, table-level FOREIGN KEY clauses sit on their own columns, CHECKs are "
+        "reported once.")
+    run_fragment(ck, ctx, "table", label="constraints", tier=ck.tier, constraints=True, set_null=True, final=("keys",))
     ck.assumptions += ["words are separated as pre_process_data intends", "CHECK expression content is not decided"]
